@@ -240,11 +240,12 @@ class Ref:
                 return (pos + len(e[1]), stack, ())
             return FAIL
         if k == "ci":
+            # pest: ASCII letters are compared ignoring case, everything else exactly
             s = e[1]
             seg = t[pos : pos + len(s)]
-            if not s.isascii() or not seg.isascii():
-                raise Unspecified("non-ascii case-insensitive comparison")
-            if len(seg) == len(s) and seg.lower() == s.lower():
+            if len(seg) == len(s) and all(
+                a == b or (a.isascii() and b.isascii() and a.isalpha() and a.lower() == b.lower()) for a, b in zip(s, seg)
+            ):
                 self.prog += 1 if s else 0
                 return (pos + len(s), stack, ())
             return FAIL
